@@ -17,18 +17,18 @@ func c07Flows(c *Ctx, r *Report) {
 	const cl = "C07.c"
 	checkFlowLinks(c, r, []flowLink{
 		{cl, "a union tag set on a grammar symbol is stored", "Symbol", "Symbol", "Tag", "(*Symbol).SetTag", []string{"=$"}, nil, true},
-		{cl, "the tag written on a %token / %left line is merged into an identifier declared before", "Parser", "Idendity", "Tag", "(*astDeclareVistor).Process", []string{".IdentifyList).Tag"}, []string{"$ok", "] != nil", `.Tag != ""`}, true},
-		{cl, "%type gives its tag to an identifier declared before", "Parser", "Idendity", "Tag", "(*astDeclareVistor).Process", []string{".TypeDefList).Tag"}, []string{"$ok", "] != nil"}, true},
-		{cl, "%type creates the identifier with its tag when it is new", "Parser", "Idendity", "Tag", "(*astDeclareVistor).Process", []string{".TypeDefList).Tag"}, []string{"$ok", "] == nil"}, true},
+		{cl, "the tag written on a %token / %left line is merged into an identifier declared before", "Parser", "Idendity", "Tag", "(*astDeclareVistor).Process", []string{".IdentifyList).Tag"}, []string{"?$ok", "] != nil", `?.Tag != ""`}, true},
+		{cl, "%type gives its tag to an identifier declared before", "Parser", "Idendity", "Tag", "(*astDeclareVistor).Process", []string{".TypeDefList).Tag"}, []string{"?$ok", "] != nil"}, true},
+		{cl, "%type creates the identifier with its tag when it is new", "Parser", "Idendity", "Tag", "(*astDeclareVistor).Process", []string{".TypeDefList).Tag"}, []string{"?$ok", "] == nil"}, true},
 		{cl, "the names after <tag> on a %token line carry that tag", "Parser", "Idendity", "Tag", "(*parser).parseTokendef", []string{"=$"}, nil, false},
 		{cl, "the names after <tag> on a precedence line carry that tag", "Parser", "Idendity", "Tag", "(*parser).parsePrecList", []string{"=$"}, nil, false},
 		{cl, "the names after <tag> on a %type line carry that tag", "Parser", "TypeDef", "Tag", "(*parser).parseTypeList", []string{"=$", ".current.Value"}, nil, false},
 		{cl, "an action block in a rule becomes an element of the right-hand side", "Parser", "RightSymOrAction", "Element", "(*parser).parseRule", []string{".current.Value"}, []string{`.Kind == "ActionQuote"`}, false},
 		{cl, "the elements collected for an alternative become its right-hand side", "Parser", "RuleDef", "RightPart", "(*parser).parseRule", []string{"=$"}, nil, false},
-		{cl, "the action element's text becomes the rule's action code", "Parser", "oneRule", "ActionCode", "(*RuleVistor).Process", []string{".RightPart).Element"}, []string{"$ok", ".ElemType == 2"}, true},
+		{cl, "the action element's text becomes the rule's action code", "Parser", "oneRule", "ActionCode", "(*RuleVistor).Process", []string{".RightPart).Element"}, []string{"?$ok", ".ElemType == 2"}, true},
 	})
 	checkRequiredCalls(c, r, []requiredCall{
-		{cl, "a tagged identifier's tag is copied to its grammar symbol", "(*Walker).BuildLALR1", "SetTag", 0, ".Tag", []string{"$ok", `.Tag != ""`, ".Value != -1"}, true},
+		{cl, "a tagged identifier's tag is copied to its grammar symbol", "(*Walker).BuildLALR1", "SetTag", 0, ".Tag", []string{"?$ok", `?.Tag != ""`, "?.Value != -1"}, true},
 	})
 	c07TagLocals(c, r)
 }
@@ -41,12 +41,12 @@ func c04Flows(c *Ctx, r *Report) {
 		{cl, "a rule's precedence symbol is stored", "Rules", "ProductoinRule", "PrecSymbol", "(*ProductoinRule).SetPrecSymbol", []string{"=$"}, nil, true},
 		{cl, "%prec NAME is recorded on the alternative", "Parser", "RuleDef", "PrecSym", "(*parser).parseRule", []string{"=$.current.Value"}, []string{`.Kind == "PrecDirective"`, `Is("Identifier")`}, false},
 		{cl, "%prec 'c' is recorded on the alternative under the literal's temporary name", "Parser", "RuleDef", "PrecSym", "(*parser).parseRule", []string{"=Parser.genTempName($.current.Value)"}, []string{`.Kind == "PrecDirective"`, `Is("Charater")`}, false},
-		{cl, "an explicit %prec decides the rule's precedence symbol", "Parser", "oneRule", "PrecIdSym", "(*RuleVistor).Process", []string{".PrecSym]"}, []string{"$ok", `.PrecSym != ""`}, true},
-		{cl, "without %prec each right-hand terminal with a precedence (the last one wins) decides it", "Parser", "oneRule", "PrecIdSym", "(*RuleVistor).Process", []string{".Element].Name]"}, []string{"$ok", ".ElemType == 1", "] != nil"}, true},
+		{cl, "an explicit %prec decides the rule's precedence symbol", "Parser", "oneRule", "PrecIdSym", "(*RuleVistor).Process", []string{".PrecSym]"}, []string{"?$ok", `.PrecSym != ""`}, true},
+		{cl, "without %prec each right-hand terminal with a precedence (the last one wins) decides it", "Parser", "oneRule", "PrecIdSym", "(*RuleVistor).Process", []string{".Element].Name]"}, []string{"?$ok", ".ElemType == 1", "preMap[…] != nil", "?idsymtabl[…] != nil"}, true},
 	})
 	checkRequiredCalls(c, r, []requiredCall{
-		{cl, "a rule's precedence symbol is handed to the grammar rule", "(*Walker).BuildLALR1", "SetPrecSymbol", -1, "", []string{"$ok", ".PrecIdSym != nil"}, true},
-		{cl, "a terminal's precedence level is copied to its grammar symbol", "(*Walker).BuildLALR1", "SetPrec", 0, ".Prec", []string{"$ok", "] != nil", ".IDTyp != 2", ".Value != -1"}, true},
+		{cl, "a rule's precedence symbol is handed to the grammar rule", "(*Walker).BuildLALR1", "SetPrecSymbol", -1, "", []string{"?$ok", ".PrecIdSym != nil"}, true},
+		{cl, "a terminal's precedence level is copied to its grammar symbol", "(*Walker).BuildLALR1", "SetPrec", 0, ".Prec", []string{"?$ok", "] != nil", "?.IDTyp != 2", "?.Value != -1"}, true},
 	})
 }
 
@@ -54,10 +54,10 @@ func c11Flows(c *Ctx, r *Report) {
 	const cl = "C11.c"
 	checkFlowLinks(c, r, []flowLink{
 		{cl, "a symbol's token code is stored", "Symbol", "Symbol", "Value", "(*Symbol).SetValue", []string{"=$"}, nil, true},
-		{cl, "an explicit number on a later declaration of the same name is merged into the identifier table", "Parser", "Idendity", "Value", "(*astDeclareVistor).Process", []string{".IdentifyList).Value"}, []string{"$ok", "] != nil", ".Value != 0"}, true},
+		{cl, "an explicit number on a later declaration of the same name is merged into the identifier table", "Parser", "Idendity", "Value", "(*astDeclareVistor).Process", []string{".IdentifyList).Value"}, []string{"?$ok", "] != nil", ".Value != 0"}, true},
 	})
 	checkRequiredCalls(c, r, []requiredCall{
-		{cl, "every identifier's code is copied to its grammar symbol", "(*Walker).BuildLALR1", "SetValue", 0, ".Value", []string{"$ok", ".Value != -1"}, true},
+		{cl, "every identifier's code is copied to its grammar symbol", "(*Walker).BuildLALR1", "SetValue", 0, ".Value", []string{"?$ok", "?.Value != -1"}, true},
 	})
 }
 
@@ -67,7 +67,7 @@ func c12Flows(c *Ctx, r *Report) {
 		{cl, "marking a symbol as nonterminal is stored", "Symbol", "Symbol", "IsNonTerminator", "(*Symbol).SetNT", []string{"=true"}, nil, true},
 	})
 	checkRequiredCalls(c, r, []requiredCall{
-		{cl, "identifiers that are not tokens become nonterminal symbols", "(*Walker).BuildLALR1", "SetNT", -1, "", []string{"$ok", ".IDTyp == 2", ".Value != -1"}, true},
+		{cl, "identifiers that are not tokens become nonterminal symbols", "(*Walker).BuildLALR1", "SetNT", -1, "", []string{"?$ok", ".IDTyp == 2", "?.Value != -1"}, true},
 	})
 }
 
@@ -75,7 +75,7 @@ func c12Flows(c *Ctx, r *Report) {
 func c03Flows(c *Ctx, r *Report) {
 	const cl = "C03.e"
 	checkRequiredCalls(c, r, []requiredCall{
-		{cl, "nullable nonterminals are computed while the grammar is built", "(*Walker).BuildLALR1", "CalculateEpsilonClosure", -1, "", []string{"$ok"}, true},
+		{cl, "nullable nonterminals are computed while the grammar is built", "(*Walker).BuildLALR1", "CalculateEpsilonClosure", -1, "", []string{"?$ok"}, true},
 	})
 	if f := c.need(r, cl, "Parser", "Walker", "BuildLALR1"); f != nil {
 		info := f.Pkg.TypesInfo
@@ -747,4 +747,85 @@ func c10TokenStartDiscipline(c *Ctx, r *Report, clause string) {
 		})
 		r.Check(ok, clause, "R1 PROVENANCE", f.Name+"/emits-the-current-word", c.pos(f.Decl.Pos()), "emit(kind) = emitValue(kind, word())", "emit does not emit the current word under the given kind")
 	}
+}
+
+// c10DeclareDispatch — parseDeclare hands each kind of declaration to its own reader and keeps what it returns:
+// evaluated as a decision table over the token kind of the loop's current token.
+func c10DeclareDispatch(c *Ctx, r *Report, clause string) {
+	f := c.need(r, clause, "Parser", "parser", "parseDeclare")
+	if f == nil {
+		return
+	}
+	info := f.Pkg.TypesInfo
+	key := f.Name + "/each-declaration-kind-reaches-its-reader"
+	var loop *ast.ForStmt
+	for _, st := range f.Decl.Body.List {
+		if fs, ok := st.(*ast.ForStmt); ok {
+			loop = fs
+		}
+	}
+	if loop == nil {
+		r.Undecided(clause, "R4 DECISION-TABLE", key, c.pos(f.Decl.Pos()), "no declaration loop")
+		return
+	}
+	pe := newPathEnum(info)
+	paths, err := pe.Enumerate(loop.Body.List)
+	if err != nil {
+		r.Undecided(clause, "R4 DECISION-TABLE", key, c.pos(loop.Pos()), err.Error())
+		return
+	}
+	kinds := kindConsts(c)
+	want := []struct {
+		kind, reader string
+	}{
+		{"TokenDirective", "parseTokendef"},
+		{"LeftAssoc", "parsePrecList"}, {"RightAssoc", "parsePrecList"}, {"NoneAssoc", "parsePrecList"}, {"Precedence", "parsePrecList"},
+		{"TypeDirective", "parseTypeList"},
+		{"StartDirective", "parseStartSymbol"},
+	}
+	readers := map[string]bool{"parseTokendef": true, "parsePrecList": true, "parseTypeList": true, "parseStartSymbol": true}
+	var bad []string
+	for _, w := range want {
+		kv := kinds[w.kind]
+		if kv == "" {
+			bad = append(bad, "no token kind "+w.kind)
+			continue
+		}
+		hits := selectPaths(paths, kindValuation(c, kv, nil))
+		if len(hits) == 0 {
+			bad = append(bad, w.kind+": no path")
+		}
+		for _, p := range hits {
+			called := map[string]bool{}
+			for _, e := range p.Effects {
+				if e.Kind == "call" {
+					name := e.Term.Name
+					if i := strings.LastIndex(name, "."); i >= 0 {
+						name = name[i+1:]
+					}
+					if readers[name] {
+						called[name] = true
+					}
+				}
+			}
+			if !called[w.reader] || len(called) != 1 {
+				bad = append(bad, fmt.Sprintf("a %s declaration is read by %v, expected %s", w.kind, sortedKeys(called), w.reader))
+				continue
+			}
+			// the reader's result is kept: a local is assigned a term that contains the reader's call
+			kept := false
+			for _, t := range p.Env {
+				if t != nil && strings.Contains(t.String(), "."+w.reader+"(") {
+					kept = true
+				}
+			}
+			if !kept {
+				bad = append(bad, "the result of "+w.reader+" for a "+w.kind+" declaration is dropped")
+			}
+		}
+	}
+	sortStrings(bad)
+	r.Check(len(bad) == 0, clause, "R4 DECISION-TABLE", key, c.pos(loop.Pos()),
+		"%token → parseTokendef, %left/%right/%nonassoc/%precedence → parsePrecList, %type → parseTypeList, %start → parseStartSymbol; each result is kept",
+		strings.Join(bad, "; "))
 }
